@@ -71,6 +71,12 @@ def _do_run(args):
             msgs, code = run_child(_go,
                                    timeout=getattr(mod, "RUN_TIMEOUT", 300))
             res = next((m["result"] for m in msgs if "result" in m), None)
+            if res is None and code < 0 and getattr(mod, "SYSTEM_IN_RUN_PROCESS", False):
+                # the code under test runs inside the run process for this check: a death by signal (SIGSEGV through a
+                # closed mapping, SIGBUS on a truncated one) is the system's doing - worse than any exception it could raise
+                res = {"violation": {"clause": f"{prop}.crash", "sig": f"process-died-signal{-code}",
+                                     "detail": f"the process running the code under test died from signal {-code} (no Python exception): e.g. a read through a closed or truncated memory map"},
+                       "stats": {"outcomes": {"violation": 1}}, "digest": f"died-signal{-code}", "sample": None}
             if res is None:
                 raise RuntimeError(f"run process ended with code {code} without a result")
         else:
@@ -342,6 +348,13 @@ def explore(prop, mod, a):
             jdump(mplan, path, indent=1)
             try:
                 r2 = _fresh_digest(prop, mplan, hashseed=777)
+                tries = 1
+                while not (r2.get("violation") and r2["violation"]["clause"] == mv["clause"]) and tries < 3:
+                    # a system that draws from real entropy (or dies at a varying point) fails only some of the time
+                    r2 = _fresh_digest(prop, mplan, hashseed=777 + tries)
+                    tries += 1
+                if tries > 1 and r2.get("violation") and r2["violation"]["clause"] == mv["clause"]:
+                    mplan["replay_note"] = f"the violation reproduced in a fresh interpreter only at attempt {tries}: the system under test behaves nondeterministically under this plan"
             except Exception as e:
                 out_lines.append(f"HARNESS-ERROR replay in fresh interpreter failed: {e!r}")
                 rc = EXIT_HARNESS
